@@ -14,10 +14,14 @@ C18 — saving never destroys existing files unless asked; project results accum
     (`Project.create`, `ProjectModelRegistry.generate_model`,
     `ProjectParameterRegistry.generate_parameters`, `ProjectDataRegistry.import_data`).
 
+(a') The builtin result plugins after entry.  `runResultPlugin` interprets the step lists of
+    `YmlProjectIo.save_result` / `FolderProjectIo.save_result` (regenerated: `Generated.resultPlugins`): which file
+    every call writes, relative to the result folder; the writers of the single files are parameters (`World`).
+
 (b) Result runs.  `Dir` is the listing of `<project>/results`; `previous`, `createRunName`, `save`,
     `fallback`, `getLatest`, `items` follow `glotaran/project/project_result_registry.py`,
     `project_registry.py:ProjectRegistry.items` and `project.py:get_latest_result_path` *after* the
-    fixes D13 / dotted-result-name / latest-run-specifier.  Names are `List Char` (Python compares
+    fixes D13 / dotted-result-name / latest-run-specifier / run-10000.  Names are `List Char` (Python compares
     and sorts `str` by code point; so does `lexLt`).
 
 External, hence parameters or trusted: the OS file system, `pathlib`, `re`, `int()`, the plugins.
@@ -373,6 +377,245 @@ def guardedWrite (k : GuardKind) (fs : FS) (p : Path) (allow ignore : Bool) (con
         if isDir fs' p then (fs', .failed .isADirectory)
         else (set fs' p (.file content), .written)
 
+/-! ### the builtin result plugins after entry (`yml`, `folder`): which files they write
+
+    The step lists are regenerated from `glotaran/builtin/io/yml/yml.py:YmlProjectIo.save_result` and
+    `glotaran/builtin/io/folder/folder_plugin.py:FolderProjectIo.save_result` (`Generated.resultPlugins`).
+    The writers of the single files (`Path.write_text`, `DataFrame.to_csv`, `write_dict`, the csv / netCDF /
+    yml plugins behind the nested `save_*` calls) are parameters: `World.content` is what they put into the
+    file they are given, `World.fail` lets any of them raise (before or after writing).  File names are
+    single path components (dataset labels and format names without `/`). -/
+
+/-- a piece of a file name as written in the source -/
+inductive NamePart where
+  | text (s : String)      -- literal text
+  | label                  -- the dataset label of the enclosing `for label, dataset in result.data.items()`
+  | paramFormat            -- `saving_options.parameter_format`
+  | dataFormat             -- `saving_options.data_format`
+  | other (src : String)   -- anything else
+  deriving Repr, DecidableEq, Inhabited
+
+/-- where a step of the plugin points to, relative to the call's `result_path` -/
+inductive Target where
+  | folder                            -- the result folder
+  | resultFile                        -- the result file (`result.yml`)
+  | inFolder (name : List NamePart)   -- `result_folder / <name>`
+  | other (src : String)              -- an expression the extractor cannot place
+  deriving Repr, DecidableEq, Inhabited
+
+inductive PCond where
+  | always
+  | ifReport               -- `if saving_options.report:`
+  | forEachLabel           -- body of `for label, dataset in result.data.items():`
+  | maybe (id : Nat)
+  deriving Repr, DecidableEq, Inhabited
+
+inductive PEffect where
+  | refuseIfFile (t : Target)                              -- `if t.is_file(): raise ValueError`
+  | mkdir (t : Target)                                     -- `t.mkdir(parents=True, exist_ok=True)`
+  | write (via : String) (t : Target) (allow : ArgRef)     -- a call that writes the file `t` (`allow` of a nested save_*)
+  | delegate (fmt : String) (t : Target) (allow : ArgRef)  -- `save_result(result, t, format_name=fmt, allow_overwrite=allow)`
+  | unknownCall (name : String)                            -- any other call that is not whitelisted as pure
+  deriving Repr, DecidableEq, Inhabited
+
+structure PStep where
+  eff : PEffect
+  cond : PCond
+  deriving Repr, DecidableEq, Inhabited
+
+structure ResultPlugin where
+  /-- names under which the class is registered -/
+  formats : List String
+  cls : String
+  file : String
+  /-- `result_path` names the result file itself when its suffix is one of these, else the file is
+      `result_path / defaultFile`; no suffixes: `result_path` is the result folder -/
+  fileSuffixes : List String
+  defaultFile : String
+  steps : List PStep
+  deriving Repr, DecidableEq, Inhabited
+
+structure SaveOpts where
+  /-- keys of `result.data`, in order -/
+  labels : List String
+  paramFormat : String
+  dataFormat : String
+  report : Bool
+  deriving Repr, DecidableEq, Inhabited
+
+structure World where
+  /-- what the writer of a file puts into it -/
+  content : Path → String
+  /-- the writer of this file raises; `true`: after having written it -/
+  fail : Path → Option (Err × Bool)
+  unknown : String → FS → FS × Option Err
+
+/-- does `result_path` name the result file? (`Path.suffix in [".yml", ".yaml"]`) -/
+def namesFile (pl : ResultPlugin) (p : Path) : Bool := pl.fileSuffixes.contains (extOf (p.getLast?.getD ""))
+
+def resultFolderOf (pl : ResultPlugin) (p : Path) : Path :=
+  if pl.fileSuffixes.isEmpty then p else if namesFile pl p then p.dropLast else p
+
+def resultFileOf (pl : ResultPlugin) (p : Path) : Path :=
+  if pl.fileSuffixes.isEmpty then p else if namesFile pl p then p else p ++ [pl.defaultFile]
+
+def renderPart (o : SaveOpts) (label : String) : NamePart → String
+  | .text s => s
+  | .label => label
+  | .paramFormat => o.paramFormat
+  | .dataFormat => o.dataFormat
+  | .other _ => ""
+
+def renderName (o : SaveOpts) (label : String) (parts : List NamePart) : String :=
+  String.join (parts.map (renderPart o label))
+
+def targetPath (pl : ResultPlugin) (o : SaveOpts) (p : Path) (label : String) : Target → Path
+  | .folder => resultFolderOf pl p
+  | .resultFile => resultFileOf pl p
+  | .inFolder name => resultFolderOf pl p ++ [renderName o label name]
+  | .other _ => []
+
+/-- the pending loop body repeated for every label -/
+def flushBody (o : SaveOpts) (body : List PEffect) : List (PEffect × String) :=
+  o.labels.flatMap (fun l => body.map (fun e => (e, l)))
+
+/-- the steps in execution order with the dataset label they run for: `if saving_options.report`
+    resolved, every maximal block of loop-body steps (collected in `body`) repeated per label -/
+def expandAux (o : SaveOpts) : List PStep → List PEffect → List (PEffect × String)
+  | [], body => flushBody o body
+  | s :: rest, body =>
+    match s.cond with
+    | .forEachLabel => expandAux o rest (body ++ [s.eff])
+    | .ifReport =>
+      flushBody o body ++ (if o.report then [(s.eff, "")] else []) ++ expandAux o rest []
+    | _ => flushBody o body ++ (s.eff, "") :: expandAux o rest []
+
+def expandSteps (o : SaveOpts) (steps : List PStep) : List (PEffect × String) := expandAux o steps []
+
+/-- a writer is handed the path `q` -/
+def writeAt (w : World) (fs : FS) (q : Path) : FS × Option Err :=
+  if isDir fs q then (fs, some .isADirectory)
+  else if !isDir fs q.dropLast then (fs, some (.other "FileNotFoundError"))
+  else
+    match w.fail q with
+    | some (e, false) => (fs, some e)
+    | some (e, true) => (set fs q (.file (w.content q)), some e)
+    | none => (set fs q (.file (w.content q)), none)
+
+def allowOf : ArgRef → Bool
+  | .lit b => b
+  | _ => false
+
+/-- one step; `delegate fmt q fs` stands for the nested `save_result(…, format_name=fmt)` after its check -/
+def runPEffect (delegate : String → Path → FS → FS × Option Err) (pl : ResultPlugin) (o : SaveOpts) (w : World)
+    (p : Path) (eff : PEffect) (label : String) (fs : FS) : FS × Option Err :=
+  match eff with
+  | .refuseIfFile t => if isFile fs (targetPath pl o p label t) then (fs, some .valueError) else (fs, none)
+  | .mkdir t =>
+    match mkdirP fs [] (targetPath pl o p label t) with
+    | .error e => (fs, some e)
+    | .ok fs1 => (fs1, none)
+  | .write via t allow =>
+    let q := targetPath pl o p label t
+    if "save_".toList.isPrefixOf via.toList then
+      -- nested convenience function: the check first (it creates the parents), then the format's writer
+      match protect fs q (allowOf allow) with
+      | (fs1, some e) => (fs1, some e)
+      | (fs1, none) => writeAt w fs1 q
+    else writeAt w fs q
+  | .delegate fmt t allow =>
+    let q := targetPath pl o p label t
+    match protect fs q (allowOf allow) with
+    | (fs1, some e) => (fs1, some e)
+    | (fs1, none) => delegate fmt q fs1
+  | .unknownCall n => w.unknown n fs
+
+/-- the steps in order; the first exception ends the call -/
+def runPSteps (delegate : String → Path → FS → FS × Option Err) (pl : ResultPlugin) (o : SaveOpts) (w : World)
+    (p : Path) : List (PEffect × String) → FS → FS × Option Err
+  | [], fs => (fs, none)
+  | (eff, label) :: rest, fs =>
+    match runPEffect delegate pl o w p eff label fs with
+    | (fs', some e) => (fs', some e)
+    | (fs', none) => runPSteps delegate pl o w p rest fs'
+
+def findPlugin (table : List ResultPlugin) (fmt : String) : Option ResultPlugin :=
+  table.find? (fun x => x.formats.contains fmt)
+
+/-- a plugin that is called from inside another one (`folder` from `yml`): no further nesting -/
+def runInner (table : List ResultPlugin) (o : SaveOpts) (w : World) (fmt : String) (p : Path) (fs : FS) :
+    FS × Option Err :=
+  match findPlugin table fmt with
+  | some pl => runPSteps (fun _ _ fs => (fs, some .valueError)) pl o w p (expandSteps o pl.steps) fs
+  | none => (fs, some .valueError)
+
+/-- `io.save_result(result, result_path, saving_options)` of the plugin registered for `fmt` -/
+def runResultPlugin (table : List ResultPlugin) (o : SaveOpts) (w : World) (fmt : String) (p : Path) (fs : FS) :
+    FS × Option Err :=
+  match findPlugin table fmt with
+  | some pl => runPSteps (runInner table o w) pl o w p (expandSteps o pl.steps) fs
+  | none => (fs, some .valueError)
+
+/-- the files one step is meant to write (`inner fmt q`: those of a nested plugin call) -/
+def effTargets (inner : String → Path → List Path) (pl : ResultPlugin) (o : SaveOpts) (p : Path)
+    (eff : PEffect) (label : String) : List Path :=
+  match eff with
+  | .write _ t _ => [targetPath pl o p label t]
+  | .delegate fmt t _ => inner fmt (targetPath pl o p label t)
+  | _ => []
+
+/-- the files the steps are meant to write, in order -/
+def stepTargets (inner : String → Path → List Path) (pl : ResultPlugin) (o : SaveOpts) (p : Path) :
+    List (PEffect × String) → List Path
+  | [] => []
+  | (eff, label) :: rest => effTargets inner pl o p eff label ++ stepTargets inner pl o p rest
+
+def innerFiles (table : List ResultPlugin) (o : SaveOpts) (fmt : String) (p : Path) : List Path :=
+  match findPlugin table fmt with
+  | some pl => stepTargets (fun _ _ => []) pl o p (expandSteps o pl.steps)
+  | none => []
+
+/-- every file `save_result(result, p, format_name=fmt, saving_options=o)` is meant to write -/
+def resultFiles (table : List ResultPlugin) (o : SaveOpts) (fmt : String) (p : Path) : List Path :=
+  match findPlugin table fmt with
+  | some pl => stepTargets (innerFiles table o) pl o p (expandSteps o pl.steps)
+  | none => []
+
+/-! table checks on the regenerated plugin table -/
+
+/-- the target is a file directly inside the result folder of plugin `pl` -/
+def Target.isInside (pl : ResultPlugin) : Target → Bool
+  | .inFolder name => name.all (fun x => match x with | .other _ => false | _ => true)
+  | .resultFile => !pl.fileSuffixes.isEmpty
+  | _ => false
+
+/-- what a plugin that is called from another plugin may do: refuse / create its folder, write files of the folder -/
+def PEffect.leafOk (pl : ResultPlugin) : PEffect → Bool
+  | .refuseIfFile t => decide (t = .folder)
+  | .mkdir t => decide (t = .folder)
+  | .write _ t _ => t.isInside pl
+  | .delegate _ _ _ => false
+  | .unknownCall _ => false
+
+def PCond.isExact : PCond → Bool
+  | .maybe _ => false
+  | _ => true
+
+def innerOk (pl : ResultPlugin) : Bool :=
+  pl.fileSuffixes.isEmpty && pl.steps.all (fun s => s.eff.leafOk pl && s.cond.isExact)
+
+def stepOk (table : List ResultPlugin) (pl : ResultPlugin) : PEffect → Bool
+  | .delegate fmt t _ =>
+    decide (t = .folder) && (match findPlugin table fmt with
+      | some pl' => innerOk pl'
+      | none => false)
+  | e => e.leafOk pl
+
+/-- every step of the plugin is classified, unconditional up to `report` / the dataset loop, and points into the
+    result folder; a nested plugin call goes to the result folder itself and to a plugin without further nesting -/
+def wellPlaced (table : List ResultPlugin) (pl : ResultPlugin) : Bool :=
+  pl.steps.all (fun s => stepOk table pl s.eff && s.cond.isExact) && !pl.fileSuffixes.contains ""
+
 /-! ## (b) result runs -/
 
 abbrev Name := List Char
@@ -404,15 +647,10 @@ def isDigit (c : Char) : Bool := 48 ≤ c.toNat && c.toNat ≤ 57
 
 def digitVal (c : Char) : Nat := c.toNat - 48
 
-def digitChar : Nat → Char
-  | 0 => '0' | 1 => '1' | 2 => '2' | 3 => '3' | 4 => '4'
-  | 5 => '5' | 6 => '6' | 7 => '7' | 8 => '8' | _ => '9'
-
-/-- `f"{n:04}"` -/
+/-- `f"{n:04}"`: the decimal digits of `n`, padded with zeros to at least four characters -/
 def fmt4 (n : Nat) : Name :=
-  if n < 10000 then
-    [digitChar (n / 1000), digitChar (n / 100 % 10), digitChar (n / 10 % 10), digitChar (n % 10)]
-  else Nat.toDigits 10 n
+  let ds := Nat.toDigits 10 n
+  List.replicate (4 - ds.length) '0' ++ ds
 
 /-- `int(ds)` for a string of ASCII digits -/
 def parseNat (ds : Name) : Nat := ds.foldl (fun acc c => 10 * acc + digitVal c) 0
@@ -422,10 +660,10 @@ def stripPrefix : Name → Name → Option Name
   | _ :: _, [] => none
   | p :: ps, c :: cs => if p = c then stripPrefix ps cs else none
 
-/-- `re.fullmatch(rf"{re.escape(base)}_run_\d{{4}}", n)` -/
+/-- `re.fullmatch(rf"{re.escape(base)}_run_(\d{{4,}})", n)` (run-10000 fix: four *or more* digits) -/
 def isRunOf (base n : Name) : Bool :=
   match stripPrefix (base ++ runInfix) n with
-  | some ds => ds.length == 4 && ds.all isDigit
+  | some ds => decide (4 ≤ ds.length) && ds.all isDigit
   | none => false
 
 /-- `int(name.replace(f"{base}_run_", ""))` for a name that `isRunOf base` -/
@@ -464,8 +702,25 @@ def isDirEntry (d : Dir) (n : Name) : Bool :=
   | some .emptyDir => true
   | _ => false
 
-/-- `previous_result_paths(base)`: the entries named `base_run_NNNN`, sorted -/
-def previous (d : Dir) (base : Name) : List Name := isort ((names d).filter (isRunOf base))
+/-- the order of `sorted(runs)` on the pairs `(int(match.group(1)), path)`: by run number, equal
+    numbers (`a_run_0005` / `a_run_00005`) by name -/
+def runLt (base a b : Name) : Bool :=
+  decide (runNumber base a < runNumber base b) ||
+    (decide (runNumber base a = runNumber base b) && lexLt a b)
+
+/-- insert into a list sorted by `lt`, after equal elements -/
+def insertBy (lt : Name → Name → Bool) (x : Name) : List Name → List Name
+  | [] => [x]
+  | y :: ys => if lt x y then x :: y :: ys else y :: insertBy lt x ys
+
+/-- `sorted(...)` by the order `lt` -/
+def isortBy (lt : Name → Name → Bool) : List Name → List Name
+  | [] => []
+  | x :: xs => insertBy lt x (isortBy lt xs)
+
+/-- `previous_result_paths(base)`: the entries named `base_run_` + four or more digits, ordered by
+    run number (run-10000 fix; before it: exactly four digits, ordered as strings) -/
+def previous (d : Dir) (base : Name) : List Name := isortBy (runLt base) ((names d).filter (isRunOf base))
 
 /-- `create_result_run_name(base)` -/
 def createRunName (d : Dir) (base : Name) : Name :=
@@ -488,13 +743,19 @@ def save (d : Dir) (base : Name) (payload : Nat) : Dir × SaveOut :=
   | some .file => (d, .blockedByFile rn)
   | _ => (setEntry d rn (.run payload), .saved rn)
 
-/-- the name ends in `_run_` and four digits -/
-def endsWithRunSpecifier (n : Name) : Bool :=
-  let t := n.drop (n.length - 9)
-  decide (9 ≤ n.length) && t.take 5 == runInfix && (t.drop 5).all isDigit
+/-- the ASCII digits at the end of a name -/
+def trailingDigits (n : Name) : Name := (n.reverse.takeWhile isDigit).reverse
 
-/-- `re.match(r".+_run_\d{4}$", n) is not None` -/
-def hasRunSuffix (n : Name) : Bool := decide (10 ≤ n.length) && endsWithRunSpecifier n
+/-- `re.search(r"_run_\d{4,}$", n) is not None`: the name ends in `_run_` and four or more digits
+    (the digits of a match reach the end of the name and are preceded by `_`, so they are all the
+    trailing digits) -/
+def endsWithRunSpecifier (n : Name) : Bool :=
+  let k := (trailingDigits n).length
+  decide (4 ≤ k) && decide (k + 5 ≤ n.length) && (n.drop (n.length - k - 5)).take 5 == runInfix
+
+/-- `re.match(r".+_run_\d{4,}$", n) is not None`: a run specifier with at least one character in front -/
+def hasRunSuffix (n : Name) : Bool :=
+  endsWithRunSpecifier n && decide ((trailingDigits n).length + 6 ≤ n.length)
 
 inductive Lookup where
   | found (n : Name) (warned : Bool)
@@ -512,9 +773,9 @@ def fallback (d : Dir) (name : Name) (latest : Bool) : Lookup :=
       | none => name
     if isDirEntry d name' then .found name' warned else .notFound name' warned
 
-/-- `re.sub(r"_run_\d{4}$", "", n)` -/
+/-- `re.sub(r"_run_\d{4,}$", "", n)` -/
 def stripRunSpecifier (n : Name) : Name :=
-  if endsWithRunSpecifier n then n.take (n.length - 9) else n
+  if endsWithRunSpecifier n then n.take (n.length - (trailingDigits n).length - 5) else n
 
 /-- `Project.get_latest_result_path(name)` / `load_latest_result(name)` -/
 def getLatest (d : Dir) (name : Name) : Lookup := fallback d (stripRunSpecifier name) true
@@ -727,6 +988,54 @@ def showStep (s : Step) : String :=
     | .unknownCall n => s!"unknown,{encodeStr n}"
   s!"[{e},{c}]"
 
+def showArgRef : ArgRef → String
+  | .param n => s!"param:{encodeStr n}"
+  | .lit b => s!"lit:{showBool b}"
+  | .absent => "absent"
+  | .other s => s!"other:{encodeStr s}"
+
+def showTarget : Target → String
+  | .folder => "folder"
+  | .resultFile => "file"
+  | .inFolder parts => "in:" ++ showList (parts.map (fun
+      | .text s => s!"text:{encodeStr s}"
+      | .label => "label"
+      | .paramFormat => "paramFormat"
+      | .dataFormat => "dataFormat"
+      | .other s => s!"other:{encodeStr s}"))
+  | .other s => s!"other:{encodeStr s}"
+
+def showPStep (s : PStep) : String :=
+  let c := match s.cond with
+    | .always => "always"
+    | .ifReport => "ifReport"
+    | .forEachLabel => "forEachLabel"
+    | .maybe i => s!"maybe:{i}"
+  let e := match s.eff with
+    | .refuseIfFile t => s!"refuse,{showTarget t}"
+    | .mkdir t => s!"mkdir,{showTarget t}"
+    | .write via t a => s!"write,{encodeStr via},{showTarget t},{showArgRef a}"
+    | .delegate fmt t a => s!"delegate,{encodeStr fmt},{showTarget t},{showArgRef a}"
+    | .unknownCall n => s!"unknown,{encodeStr n}"
+  s!"[{e},{c}]"
+
+def showPlugin (pl : ResultPlugin) : String :=
+  s!"[{showStrs pl.formats},{encodeStr pl.cls},{showStrs pl.fileSuffixes},{encodeStr pl.defaultFile}," ++
+  s!"{showList (pl.steps.map showPStep)}]"
+
+/-- scripted failures of the single-file writers: `[path, error, wrote-first]` -/
+def parseFails (t : Tree) : Option (List (Path × Err × Bool)) := do
+  let fs ← t.items?
+  fs.mapM (fun f => do
+    match ← f.items? with
+    | [p, e, b] => some (← p.strs?, ← parseErr (← e.raw?), ← b.bool?)
+    | _ => none)
+
+def lookupFail (fails : List (Path × Err × Bool)) (q : Path) : Option (Err × Bool) :=
+  match fails with
+  | [] => none
+  | (p, e, b) :: rest => if p = q then some (e, b) else lookupFail rest q
+
 def showSaveFn (f : SaveFn) : String :=
   s!"[{encodeStr f.name},{encodeStr f.module},{encodeStr f.pathParam},{encodeStr f.allowParam}," ++
   s!"{encodeStr f.formatParam},{showBool f.allowDefault},{showStrs f.decorators}," ++
@@ -734,6 +1043,10 @@ def showSaveFn (f : SaveFn) : String :=
 
 /-- protocol (one answer line per line):
     * `table`                                   → the regenerated SaveFns table, canonical text
+    * `plugins`                                 → the regenerated ResultPlugins table, canonical text
+    * `result-files <fmt> <path> <labels> <param fmt> <data fmt> <report>` → the files the plugin is meant to write
+    * `save-result <path> <allow> <format|none> <known formats> <labels> <param fmt> <data fmt> <report> <fails>`
+                                                → `<outcome> <fs>` (save_result with the modelled builtin plugin)
     * `fs-reset <fs>`                           → `ok`
     * `protect <path> <allow>`                  → `<outcome> <fs>`
     * `save <fn> <path> <allow> <format|none> <known formats> <ops> <maybe conds>` → `<outcome> <fs>`
@@ -744,9 +1057,44 @@ def showSaveFn (f : SaveFn) : String :=
     * `reg-save <base> <payload>` → outcome;  `reg-path <name> <latest>`, `reg-latest <name>` → lookup
     * `reg-load <name> <latest>`, `reg-load-latest <name>` → loaded payload;  `reg-mk <name> <kind> <payload>` → `ok`
     * `reg-items` → `[[key,name],…] <warnings>` -/
-def driverStep (table : List SaveFn) (st : State) (ts : List Tree) : State × String :=
+def driverStep (table : List SaveFn) (plugins : List ResultPlugin) (st : State) (ts : List Tree) : State × String :=
   match ts with
   | [.atom "table"] => (st, showList (table.map showSaveFn))
+  | [.atom "plugins"] => (st, showList (plugins.map showPlugin))
+  | [.atom "result-files", fmt, p, labels, pf, df, report] =>
+    let parsed : Option (List Path) := do
+      let o : SaveOpts := { labels := ← labels.strs?, paramFormat := ← pf.str?, dataFormat := ← df.str?, report := ← report.bool? }
+      some (resultFiles plugins o (← fmt.str?) (← p.strs?))
+    match parsed with
+    | some l => (st, showList ((l.mergeSort pathLe).map showPath))
+    | none => (st, "bad-op")
+  | [.atom "save-result", p, a, fmt, known, labels, pf, df, report, fails] =>
+    -- the real `save_result` entry (table) with the modelled builtin plugin behind it; written files hold "W"
+    let parsed : Option (SaveFn × Env) := do
+      let f ← table.find? (fun f => f.name == "save_result")
+      let path ← p.strs?
+      let formatName ← fmt.optOf? Tree.str?
+      let o : SaveOpts := { labels := ← labels.strs?, paramFormat := ← pf.str?, dataFormat := ← df.str?, report := ← report.bool? }
+      let fails ← parseFails fails
+      let w : World := { content := fun _ => "W", fail := lookupFail fails, unknown := fun n fs => (fs, some (.other n)) }
+      let env : Env := {
+        path := path, allow := ← a.bool?, formatName := formatName,
+        known := ← known.strs?,
+        plugin := fun _ fs =>
+          let eff := if truthy formatName then formatName.getD "" else
+            match inferFormat fs path false true with
+            | .ok x => x
+            | .error _ => ""
+          runResultPlugin plugins o w eff path fs,
+        unknown := fun n fs => (fs, some (.other n)),
+        maybeHolds := fun _ => true,
+        otherBool := fun _ => false, otherPath := fun _ => [] }
+      some (f, env)
+    match parsed with
+    | some (f, env) =>
+      let r := runSave f env st.fs
+      ({ st with fs := r.1 }, s!"{showOutcome r.2} {showFS r.1}")
+    | none => (st, "bad-op")
   | [.atom "fs-reset", t] =>
     match parseFS t with
     | some fs => ({ st with fs := fs }, "ok")
